@@ -139,9 +139,9 @@ class BaseCollectionManifest:
             self.write_csv_header(fp)
 
         for row in self.rows:
-            # don't write signature!
-            if "signature" in row:
-                del row["signature"]
+            # the 'signature' key (if any) is not in required_keys and is
+            # skipped by extrasaction="ignore"; the row itself is shared with
+            # the in-memory index and must not be modified.
             w.writerow(row)
 
     @classmethod
